@@ -400,12 +400,28 @@ func c15units(tier string) []mc.Unit {
 				r.Failf("equal-in-every-field", fmt.Sprintf("Write/Read via file, value %d", i), nil, "equal value", "differs")
 			}
 		}
+		// writing a shorter value over a longer one at the same path
+		if len(xs) > 2 {
+			long := xs[0]
+			long.Meta.Definition = c3lorem15 + c3lorem15
+			short := poly.Sequence{Sequence: "acgt"}
+			p := filepath.Join(dir, "same.json")
+			var y poly.Sequence
+			if pn := catch(func() { polyjson.Write(long, p); polyjson.Write(short, p); y = polyjson.Read(p) }); pn != "" {
+				r.Failf("no-panic", "Write long, Write short to the same path, Read", nil, "a value", pn)
+			} else if !reflect.DeepEqual(c15norm(short), c15norm(y)) {
+				r.Failf("equal-in-every-field", "Write of a long value, then Write of a short value to the same path, then Read", nil, fmt.Sprintf("%+v", c15norm(short)), fmt.Sprintf("%+v", c15norm(y)))
+			}
+			cnt++
+		}
 		r.Eval(cnt)
 		r.AddStates(cnt)
 		r.AddTransitions(cnt)
 	}})
 	return us
 }
+
+const c3lorem15 = "lorem ipsum dolor sit amet consectetur adipiscing elit sed do eiusmod tempor incididunt ut labore et dolore magna aliqua "
 
 func gbFeatureTags15(tags []string) []string {
 	var o []string
